@@ -43,6 +43,42 @@ Print Assumptions C08_length.
 Theorem C08_current : flags_ok Runtime.vec_flags = true.
 Proof. reflexivity. Qed.
 
+(* the infallible wrapper convert_vec_in_place: being the hand-over of its input to the function above followed by an
+   unwrap (fact `delegates`), it is the same fold - same outputs, same calls, drops and release - for EVERY input,
+   the empty one included; and the unwrap never fires, because its converter has no error to return *)
+Section C08w.
+Variables (T U P St : Type).
+Variable conv : St -> T -> option U -> St * option U * outcome U Empty_set P.
+Variables (sizeT alT sizeU alU : N).
+Theorem C08_wrapper : forall fl input s0, flags_ok fl = true ->
+  wrapper T U P St conv sizeT alT sizeU alU true fl input s0 = Some (wrapper_spec T U P St conv sizeT alT sizeU alU input s0).
+Proof.
+  intros fl input s0 OK. unfold wrapper, wrapper_spec.
+  rewrite (run_refines T U Empty_set P St conv sizeT alT sizeU alU fl input s0 OK).
+  destruct (spec_run T U Empty_set P St conv sizeT alT sizeU alU input s0) as [r log]. reflexivity.
+Qed.
+(* ... and it refuses what the function refuses (C10), before any element is touched *)
+Theorem C08_wrapper_refuses : forall fl input s0, flags_ok fl = true -> (sizeT <> sizeU \/ alT <> alU) ->
+  wrapper T U P St conv sizeT alT sizeU alU true fl input s0 = Some (WRefused, map DropT input ++ [FreeBuf]).
+Proof.
+  intros fl input s0 OK Hne. rewrite C08_wrapper by exact OK. unfold wrapper_spec, spec_run.
+  assert (E : (negb (N.eqb sizeT sizeU) || negb (N.eqb alT alU))%bool = true).
+  { destruct Hne as [H|H]; [apply (proj2 (N.eqb_neq _ _)) in H|apply (proj2 (N.eqb_neq _ _)) in H]; rewrite H; simpl; auto.
+    destruct (N.eqb sizeT sizeU); reflexivity. }
+  rewrite E. reflexivity.
+Qed.
+End C08w.
+Print Assumptions C08_wrapper.
+Print Assumptions C08_wrapper_refuses.
+
+Theorem C08_wrapper_current : Runtime.wrapper_delegates = true.
+Proof. reflexivity. Qed.
+
+(* an empty input with spare capacity goes through the same path: no call, no drop, no release *)
+Example C08_wrapper_empty :
+  wrapper nat nat nat nat (fun s t prev => (s, None, Converted t)) 8 8 8 8 true flags_fixed [] 0%nat = Some (WDone [] 0%nat, []).
+Proof. vm_compute. reflexivity. Qed.
+
 (* non-vacuity / sanity: keep the even elements, double them, add each odd element to the previous output *)
 Definition demo_conv (s : nat) (t : nat) (prev : option nat) : nat * option nat * outcome nat nat nat :=
   (S s, (if Nat.even t then None else option_map (fun u => u + t) prev),
